@@ -119,8 +119,8 @@ class Recorder:
         def wrapper(*a, **kw):
             try:
                 args = [ser(x) for x in pick(a, kw)]
-            except Unserialisable:
-                rec.ok = False
+            except Exception:  # noqa: BLE001  unserialisable, or the callee is no longer called in the form the picker expects: no record,
+                rec.ok = False     # and above all no exception of the recorder's own inside the code under test
                 return fn(*a, **kw)
             try:
                 r = fn(*a, **kw)
